@@ -17,7 +17,7 @@ CLAIMED = {
          "Seeded search over rules, correlation rules with their rules and filtered rules, each after zero or one pipeline transformation of any built-in kind (or a partial application that raises at the j-th detection item): the object is written with to_dict and YAML (key order preserved), loaded again, and both the dict form and the queries of live and reloaded object (pipeline-free backend without shortcuts) must agree, or the dump must fail with a Sigma error."),
  "C08": ("3/C08", "seeded fault-sequence search; accounting oracle against rules converted alone in fresh worlds",
          "Seeded search over collections of 1-8 rules in which any subset fails at any stage and position (pipeline failure items, partial application, post-processing, unresolved placeholder, unbound values, missing detection, unsupported feature, injected errors at conversion hooks, finish_query and finalize_query); the batch result and error records in collecting mode and the raised error in strict mode are accounted for against every rule converted alone in its own fresh world."),
- "C09": ("3/C09", "seeded delivery-order search (all permutations for small sets) over four load paths against a reference model",
+ "C09": ("3/C09", "seeded delivery-order search (all permutations for small sets) over the four load paths and re-use of rule objects from an earlier collection, against a reference model",
          "Seeded search over rule sets with correlation chains; every scheduled (permutation, delivery path) runs in its own fresh world, with the directory enumeration order and the merge bracketing chosen by the simulator; all permutations are walked for sets of <=4 documents (<=5 thorough), sampled beyond. Oracle: reference model of load success, conversion order, per-rule queries and own-query emission computed from the set of documents."),
 }
 PENDING = []
